@@ -136,7 +136,7 @@ def _balanced(g):
     return depth == 0
 
 
-def r12(text, args, label):
+def r12(text, args, label, every=False):
     """args = [old, new].  old: literal text; runs of blanks match any whitespace (also none next to
     punctuation); `...` matches the shortest bracket-balanced text.  Exactly one match required.
     In <new>, $1 $2 .. stand for the wildcard texts."""
@@ -164,7 +164,7 @@ def r12(text, args, label):
             pos = found.end()
         if ok:
             hits.append((m0.start(), pos, groups))
-    if ALL[0]:
+    if every:
         if not hits:
             raise LostAnchor('%s: R12 `%s` matched 0 times' % (label, old))
         res, pos = [], 0
@@ -186,15 +186,8 @@ def r12(text, args, label):
     return text[:a] + out + text[b:]
 
 
-ALL = [False]
-
-
 def r12all(text, args, label):
-    ALL[0] = True
-    try:
-        return r12(text, args, label)
-    finally:
-        ALL[0] = False
+    return r12(text, args, label, every=True)
 
 
 def r16(text, args, label):
